@@ -21,13 +21,102 @@ def repo_root() -> Path:
     return p
 
 
+_TERMINATORS = (ast.Raise, ast.Return, ast.Continue, ast.Break)
+
+
+# exact complements (no NaN subtlety, unlike < / >=)
+_COMPLEMENT = {ast.Is: ast.IsNot, ast.IsNot: ast.Is, ast.Eq: ast.NotEq, ast.NotEq: ast.Eq, ast.In: ast.NotIn, ast.NotIn: ast.In}
+
+
+def _terminates(body) -> bool:
+    return bool(body) and isinstance(body[-1], _TERMINATORS)
+
+
+def _neg(test: ast.AST) -> ast.AST:
+    if isinstance(test, ast.UnaryOp) and isinstance(test.op, ast.Not):
+        return test.operand
+    if isinstance(test, ast.Compare) and len(test.ops) == 1 and type(test.ops[0]) in _COMPLEMENT:
+        return ast.copy_location(ast.Compare(left=test.left, ops=[_COMPLEMENT[type(test.ops[0])]()], comparators=test.comparators), test)
+    return ast.copy_location(ast.UnaryOp(op=ast.Not(), operand=test), test)
+
+
+class _Canon(ast.NodeTransformer):
+    """Behaviour-preserving normal form of conditionals, applied to every module before analysis so that
+    rules see one shape for equivalent spellings (line numbers are kept):
+      not not X -> X;  `if not X: A else: B` -> `if X: B else: A`;  `if X: pass else: B` -> `if not X: B`;
+      `if X: A else: <ends in raise/return/break/continue>` -> `if not X: <...>` followed by A (guard-clause form),
+      and symmetrically when only the body terminates."""
+
+    def visit_UnaryOp(self, n):
+        self.generic_visit(n)
+        if isinstance(n.op, ast.Not) and isinstance(n.operand, ast.UnaryOp) and isinstance(n.operand.op, ast.Not):
+            return n.operand.operand
+        if isinstance(n.op, ast.Not) and isinstance(n.operand, ast.Compare) and len(n.operand.ops) == 1 and type(n.operand.ops[0]) in _COMPLEMENT:
+            return _neg(n.operand)
+        return n
+
+    def _stmts(self, body):
+        out = []
+        for st in body:
+            st = self.visit(st)
+            if isinstance(st, ast.If):
+                out.extend(self._canon_if(st))
+            else:
+                out.append(st)
+        return out
+
+    def _canon_if(self, n: ast.If):
+        if n.orelse and isinstance(n.test, ast.UnaryOp) and isinstance(n.test.op, ast.Not):
+            n.test, n.body, n.orelse = n.test.operand, n.orelse, n.body
+        if n.orelse and all(isinstance(x, ast.Pass) for x in n.body):
+            n.test, n.body, n.orelse = _neg(n.test), n.orelse, []
+        if n.orelse and all(isinstance(x, ast.Pass) for x in n.orelse):
+            n.orelse = []
+        if n.orelse and _terminates(n.orelse) and not _terminates(n.body):
+            rest = n.body
+            n.test, n.body, n.orelse = _neg(n.test), n.orelse, []
+            return [n] + rest
+        if n.orelse and _terminates(n.body) and not _terminates(n.orelse):
+            rest = n.orelse
+            n.orelse = []
+            return [n] + rest
+        return [n]
+
+    def generic_visit(self, node):
+        for field in ("body", "orelse", "finalbody"):
+            v = getattr(node, field, None)
+            if isinstance(v, list) and v and isinstance(v[0], ast.stmt):
+                setattr(node, field, self._stmts(v))
+        for field, v in ast.iter_fields(node):
+            if field in ("body", "orelse", "finalbody") and isinstance(v, list) and v and isinstance(v[0], ast.stmt):
+                continue
+            if isinstance(v, list):
+                new = []
+                for x in v:
+                    if isinstance(x, ast.AST):
+                        x = self.visit(x)
+                        if x is None:
+                            continue
+                    new.append(x)
+                v[:] = new
+            elif isinstance(v, ast.AST):
+                setattr(node, field, self.visit(v))
+        return node
+
+
+def canonical_tree(tree: ast.AST) -> ast.AST:
+    from .canon import canonical_stmts
+
+    return ast.fix_missing_locations(_Canon().visit(canonical_stmts(tree)))
+
+
 class Module:
     def __init__(self, name: str, relpath: str, source: str):
         self.name = name  # dotted, e.g. mdpax.core.solver
         self.relpath = relpath  # relative to repo root
         self.source = source
         try:
-            self.tree = ast.parse(source)
+            self.tree = canonical_tree(ast.parse(source))
         except SyntaxError as e:  # a variant that does not compile is not a valid program
             raise AnalysisError(f"{relpath}: does not parse: {e}") from e
         self.lines = source.splitlines()
